@@ -41,10 +41,44 @@ def _read_template(path, seen=None):
                 out.append((line, os.path.relpath(path, VERIF), no))
     return out
 
-def build_unit(name):
+def _expand_macros(tl):
+    """`//@macro NAME` .. `//@endmacro` records template lines (directives included); `//@use NAME{old=>new}..` replays them, so that
+    sibling functions with the same structure (e.g. the add / sub / sub-negate forms of one routine) share one annotation text"""
+    macros = {}; out = []; i = 0
+    while i < len(tl):
+        line, sf, no = tl[i]
+        m = re.match(r'\s*//@macro\s+(\w+)\s*$', line)
+        if m:
+            buf = []; i += 1
+            while i < len(tl) and not re.match(r'\s*//@endmacro', tl[i][0]):
+                buf.append(tl[i]); i += 1
+            if i >= len(tl):
+                raise ExtractError(f'{sf}:{no}: //@macro without //@endmacro')
+            macros[m.group(1)] = buf; i += 1
+            continue
+        m = re.match(r'\s*//@use\s+(\w+)\s*(.*)$', line)
+        if m:
+            if m.group(1) not in macros:
+                raise ExtractError(f'{sf}:{no}: //@use of unknown macro {m.group(1)}')
+            pairs = re.findall(r'\{([^{}]*?)=>([^{}]*?)\}', m.group(2) or '')
+            body = macros[m.group(1)]
+            for a, b in pairs:
+                if not any(a in l[0] for l in body):
+                    raise ExtractError(f'{sf}:{no}: //@use {m.group(1)}: text to replace not found: {a}')
+            for l, f2, n2 in body:
+                for a, b in pairs:
+                    l = l.replace(a, b)
+                out.append((l, f2, n2))
+            i += 1
+            continue
+        out.append(tl[i]); i += 1
+    return out
+
+def build_unit(name, probe=False):
     path = os.path.join(VERIF, 'vx', 'units', name + '.vx')
-    tl = _read_template(path)
+    tl = _expand_macros(_read_template(path))
     u = Unit(name)
+    u.probe = probe
     defs = {}
     def subst(s):
         for _ in range(4):
@@ -206,6 +240,28 @@ def build_unit(name):
             continue
         raise ExtractError(f'{sf}:{no}: unknown directive @{d}')
     return u
+
+def _in_trait_impl(lines):
+    """is the current emission point of the unit inside an `impl Trait for Type { .. }` block (the template decides where an extracted function is placed)"""
+    text = '\n'.join(lines)
+    text = re.sub(r'//[^\n]*', '', text)
+    text = re.sub(r'"(?:[^"\\]|\\.)*"', '""', text)
+    stack = []; start = 0
+    for i, ch in enumerate(text):
+        if ch == '{':
+            stack.append(text[start:i]); start = i + 1
+        elif ch == '}':
+            if stack: stack.pop()
+            start = i + 1
+        elif ch == ';':
+            start = i + 1
+    for h in reversed(stack):
+        h = h.strip()
+        if re.search(r'(^|\s)impl\b', h):
+            return bool(re.search(r'\sfor\s', re.sub(r'\bwhere\b.*', '', h, flags=re.S)))
+        if re.search(r'(^|\s)trait\s+\w+', h):
+            return False
+    return False
 
 def _emit_extracted(u, target, args, block, subst, emit):
     relpath, fname = target.split('::', 1)
@@ -415,6 +471,44 @@ def _emit_extracted(u, target, args, block, subst, emit):
     u.lines.append(cur_line); u.origin.append(cur_origin)
     u.functions.append(dict(name=args.get('rename', fname), src_name=src_fname, path=relpath, line=ft.start_line, sha=ft.sha,
                             rules=sorted(fired), out_first=first, out_last=len(u.lines) - 1, loops=len(loops)))
+    in_trait_impl = _in_trait_impl(u.lines[:first]) if getattr(u, 'probe', False) else False
+    if getattr(u, 'probe', False) == 'inplace' and in_trait_impl:
+        # a method of `impl Trait for Type` cannot get a renamed sibling (not a member of the trait): the postcondition `false` is added IN PLACE (an impl may strengthen
+        # the trait's ensures), in a separate probe file in which only these methods are judged (statically resolved callers inside the unit see the `false`).
+        k0 = first + 1 + len(sig.rstrip().split('\n')) + (len(spec.split('\n')) if spec else 0)
+        sp = spec.rstrip()
+        if re.search(r'\bensures\b', sp):
+            ins = ('            ' if sp.endswith(',') else '            , ') + 'false,   // vacuity probe'
+        else:
+            ins = '        ensures false,   // vacuity probe'
+        u.lines.insert(k0, ins); u.origin.insert(k0, ('probe', fname, ''))
+    elif getattr(u, 'probe', False) == 'copy' and not in_trait_impl:
+        # vacuity probe: a renamed COPY of the function (same body, same ghost text, same contract) with the extra postcondition `false`.  The copy MUST be
+        # refuted: if it verifies, the contract (or an assumed contract of a callee, or a loop invariant on every path to a return) is contradictory and the real
+        # obligations of this function hold vacuously.  Callers keep seeing the original contract.
+        copy_lines = u.lines[first + 1:]
+        copy_orig = u.origin[first + 1:]
+        nsig = len(sig.rstrip().split('\n'))
+        nspec = len(spec.split('\n')) if spec else 0
+        sig2 = re.sub(r'\bfn\s+(\w+)', lambda m_: 'fn ' + m_.group(1) + '__probe', '\n'.join(copy_lines[:nsig]), count=1)
+        emit('// ---- vacuity probe of `' + fname + '`', ('marker', fname, ''))
+        emit(sig2, ('real-sig', fname, relpath))
+        sp = spec.rstrip()
+        md = re.search(r'\n\s*decreases\b[^\n]*$', sp)
+        tailtxt = ''
+        if md:
+            tailtxt = sp[md.start():]; sp = sp[:md.start()].rstrip()
+        if re.search(r'\bensures\b', sp):
+            emit(sp + ('' if sp.endswith(',') else ','), ('pspec', fname, ''))
+            emit('            false,   // vacuity probe', ('probe', fname, ''))
+        else:
+            if sp:
+                emit(sp + ('' if sp.endswith(',') else ','), ('pspec', fname, ''))
+            emit('        ensures false,   // vacuity probe', ('probe', fname, ''))
+        if tailtxt:
+            emit(tailtxt.strip('\n'), ('pspec', fname, ''))
+        for l_, o_ in zip(copy_lines[nsig + nspec:], copy_orig[nsig + nspec:]):
+            u.lines.append(l_); u.origin.append(('pbody', fname, ''))
 
 TRUST_PAT = re.compile(r'\b(assume\s*\(|admit\s*\(|external_body|assume_specification|external_fn_specification|verifier::truncate|verifier::external\b)')
 
@@ -547,4 +641,80 @@ def run_unit(name, outdir, rlimit=None, timeout=900, extra=None):
         res['reason'] = 'rlimit/unsupported: ' + '; '.join(r['message'] for r in undecided[:3]) if undecided else 'verus reported failure without a mappable diagnostic'
     else:
         res['status'] = 'ok'
+    if res['status'] == 'ok' and os.environ.get('VX_NO_PROBE') != '1':
+        pr = run_probe(name, outdir, rlimit=rlimit, timeout=timeout, extra=extra)
+        res['probe'] = pr
+        res['wall_s'] = time.time() - t0
+        if pr['vacuous'] or pr['error']:
+            res['status'] = 'undecided'
+            res['reason'] = ('vacuity probe: `ensures false` VERIFIES for ' + ', '.join(pr['vacuous']) + ' (contradictory contract / assumed contract / invariant): nothing is claimed'
+                             if pr['vacuous'] else 'vacuity probe could not be run: ' + pr['error'])
     return res
+
+def run_probe(name, outdir, rlimit=None, timeout=900, extra=None):
+    """further runs of the unit with `ensures false` added to every extracted function (a renamed copy of free functions / trait default methods in one file, in place for
+    methods of trait impls in a second file); every one of them must be refuted"""
+    pr = dict(probed=0, refuted=0, vacuous=[], inconclusive=[], error='', wall_s=0.0)
+    t0 = time.time()
+    for mode in ('copy', 'inplace'):
+        try:
+            u = build_unit(name, probe=mode)
+        except ExtractError as e:
+            pr['error'] = f'extraction: {e}'; return pr
+        probe_fns = sorted({o[1] for o in u.origin if o[0] == 'probe'})
+        if not probe_fns:
+            continue
+        tag = '__probe' if mode == 'copy' else '__probe2'
+        out_rs = os.path.join(outdir, name + tag + '.rs')
+        with open(out_rs, 'w') as f:
+            f.write('\n'.join(u.lines) + '\n')
+        cmd = ['verus', out_rs, '--output-json', '--error-format=json', '--multiple-errors', '2']
+        if rlimit:
+            cmd += ['--rlimit', str(rlimit)]
+        if extra:
+            cmd += extra
+        try:
+            p = subprocess.run(cmd, cwd=outdir, capture_output=True, text=True, timeout=timeout)
+        except subprocess.TimeoutExpired:
+            pr['error'] = 'verus timeout'; return pr
+        with open(os.path.join(outdir, name + tag + '.log'), 'w') as f:
+            f.write(p.stdout + '\n' + p.stderr)
+        try:
+            summ = json.loads(p.stdout[p.stdout.index('{'):])
+        except Exception:
+            pr['error'] = 'verus produced no summary on the probe file'; return pr
+        vr_ = summ.get('verification-results', {})
+        if vr_.get('encountered-vir-error') or (vr_.get('encountered-error') and not vr_.get('verified') and not vr_.get('errors')):
+            pr['error'] = 'verus front-end / compile error on the probe file (see ' + name + tag + '.log)'; return pr
+        hit = set(); slow = set()
+        for ln in p.stderr.split('\n'):
+            ln = ln.strip()
+            if not (ln.startswith('{') and '"$message_type"' in ln):
+                continue
+            try:
+                d = json.loads(ln)
+            except Exception:
+                continue
+            if d.get('level') != 'error':
+                continue
+            low = d.get('message', '').lower()
+            for sp in d.get('spans', []):
+                if not sp.get('file_name', '').endswith(name + tag + '.rs'):
+                    continue
+                l0 = sp['line_start']
+                if 1 <= l0 <= len(u.origin):
+                    o = u.origin[l0 - 1]
+                    if o[0] == 'probe':
+                        hit.add(o[1])
+                    elif o[1] and ('rlimit' in low or 'resource limit' in low or 'timed out' in low):
+                        slow.add(o[1])
+        pr['probed'] += len(probe_fns)
+        for fn in probe_fns:
+            if fn in hit:
+                pr['refuted'] += 1
+            elif fn in slow:
+                pr['inconclusive'].append(fn)     # the solver gave up before proving `false`: not vacuous as far as it can tell
+            else:
+                pr['vacuous'].append(fn)
+    pr['wall_s'] = time.time() - t0
+    return pr
